@@ -193,7 +193,7 @@ func worldC20(w *World) {
 			w.Probe("unhealthy_exit_expected")
 			if agentExit == nil {
 				w.Violation("unhealthy-exit", "%d consecutive periodic health checks failed by %v but the agent kept running", threshold, expUnhealthy)
-			} else if agentExit.At < expUnhealthy-eps || agentExit.At > expUnhealthy+eps || !strings.Contains(agentExit.Msg, "unhealthy") {
+			} else if agentExit.At < expUnhealthy-eps || agentExit.At > expUnhealthy+eps {
 				w.Violation("unhealthy-exit", "agent exited at %v (%q); expected an unhealthy exit at %v", agentExit.At, agentExit.Msg, expUnhealthy)
 			}
 		case expSignal >= 0 && (expUnhealthy < 0 || expSignal < expUnhealthy-eps):
